@@ -928,6 +928,13 @@ func (e *Env) addrOf(x *Expr) (string, types.Type, bool) {
 		}
 		return baseAddr, fty, true
 	case "idx":
+		// an element of an array that lives in memory is read from its own cell
+		if a, t, ok := e.addrOf(x.A[0]); ok {
+			if arr, isArr := t.Underlying().(*types.Array); isArr {
+				i := e.coerce(e.eval(x.A[1]), intT)
+				return tr.elemAddr(a, tr.toIdx(i)), arr.Elem(), true
+			}
+		}
 		base := e.evalNoSite(x.A[0])
 		if base.Ty == nil {
 			return "", nil, false
